@@ -398,6 +398,40 @@ def search_c17():
     return None
 
 
+def search_c03():
+    import rsatoolbox
+    from rsatoolbox.rdm.compare import compare_cosine, compare_correlation, _cosine
+    rs = np.random.RandomState(11)
+    for rep in range(300):
+        n1, n2, n_cond = rs.randint(1, 4), rs.randint(1, 4), rs.randint(3, 6)
+        nvec = n_cond * (n_cond - 1) // 2
+        A = rs.randint(-6, 20, size=(n1, nvec)) / 4.0
+        B = rs.randint(-6, 20, size=(n2, nvec)) / 4.0
+        if rep % 5 == 0:
+            B[0] = 3 * A[0]
+        if rep % 7 == 0:
+            A[-1] = 0.0                      # a zero vector: similarity 0 by convention
+
+        def cos(x, y):
+            nx, ny = np.sqrt(x @ x), np.sqrt(y @ y)
+            return (x @ y) / nx / ny if nx > 0 and ny > 0 else 0.0
+        inp = dict(vectors1=A.tolist(), vectors2=B.tolist())
+        want = np.array([[cos(a, b) for b in B] for a in A])
+        out = np.asarray(_cosine(A.copy(), B.copy()), float)
+        if out.shape != want.shape or not np.allclose(out, want, atol=1e-12):
+            return _fail('_cosine', inp, out.tolist(), want.tolist(), 'entry (i,k) is not the cosine of vector i and vector k')
+        r1, r2 = rsatoolbox.rdm.RDMs(A.copy()), rsatoolbox.rdm.RDMs(B.copy())
+        out = np.asarray(compare_cosine(r1, r2), float)
+        if out.shape != want.shape or not np.allclose(out, want, atol=1e-12):
+            return _fail('compare_cosine', inp, out.tolist(), want.tolist(), 'entry (i,k) is not the cosine of RDM i and RDM k')
+        want = np.array([[cos(a - a.mean(), b - b.mean()) for b in B] for a in A])
+        out = np.asarray(compare_correlation(r1, r2), float)
+        if out.shape != want.shape or not np.allclose(out, want, atol=1e-9):
+            return _fail('compare_correlation', inp, out.tolist(), want.tolist(),
+                         'entry (i,k) is not the Pearson correlation of RDM i and RDM k')
+    return None
+
+
 def search(pid):
     f = globals().get('search_' + pid.lower())
     r = f() if f else None
